@@ -169,6 +169,12 @@ struct RZone {
   bool has_std_footer = false;
   Posix px;
   RType rule_std, rule_dst;
+  // Old-zic files whose type 0 is a DST type referenced by a transition do not
+  // designate the before-first type unambiguously; a harness may pin it (from
+  // what lookup() reports there) and check everything else against that.
+  bool has_bf = false;
+  RType bf;
+  const RType& first_type() const { return has_bf ? bf : types[0]; }
 
   // --- construction -------------------------------------------------------
   static RZone from_bytes(const std::string& bytes) {
@@ -258,10 +264,10 @@ struct RZone {
   }
 
   RType at(i128 t) const {
-    if (!times.empty() && t < times.front()) return types[0];
+    if (!times.empty() && t < times.front()) return first_type();
     if (times.empty() || t >= times.back()) {
       if (has_rule) return rule_at(t);
-      if (times.empty()) return types[0];
+      if (times.empty()) return first_type();
       return types[idx.back()];
     }
     size_t lo = 0, hi = times.size();  // last i with times[i] <= t
@@ -281,7 +287,7 @@ struct RZone {
       if (times[i] > b) break;
       RTrans tr;
       tr.t = times[i];
-      tr.before = (i == 0) ? types[0] : types[idx[i - 1]];
+      tr.before = (i == 0) ? first_type() : types[idx[i - 1]];
       tr.after = types[idx[i]];
       tr.from_rule = false;
       out->push_back(tr);
